@@ -34,7 +34,7 @@ def def_key(d, N, variants, rh):
     return hashlib.sha256(text.encode()).hexdigest()[:20]
 
 
-ST_VERSION = 16      # bump to invalidate cached per-definition results when the harness changes
+ST_VERSION = 17      # bump to invalidate cached per-definition results when the harness changes
 
 
 def work_def(args):
@@ -43,6 +43,7 @@ def work_def(args):
     d = _G['defs'][i]
     prog = _G['prog']
     t0 = time.time()
+    c0 = time.process_time()     # budgets are CPU time of this worker, so coverage does not depend on the load of the host
     res = {'idx': i, 'mismatches': [], 'inconclusive': None, 'stats': None, 'over_budget': False}
     try:
         msg = d.oracle_selfcheck()
@@ -51,7 +52,7 @@ def work_def(args):
         h = ST.StepHarness(prog, i, d, min(N, d.nmax) if d.nmax else N, fields=_G['fields'])
         h.width_table = _G.get('width_table')
         h.width_keys = [x[0] for x in (h.width_table or [])]
-        h.ex.deadline = t0 + budget
+        h.ex.deadline = c0 + budget
         nseen = {}
         runs = []
         if _G.get('prop') == 'C14':
@@ -79,14 +80,50 @@ def work_def(args):
                         'concrete': ST.concretize(h, m.model, m.detail.get('decisions', ())) if m.model is not None else None,
                         'expected': m.detail.get('expected'), 'ctor': m.detail.get('ctor'), 'post': bool(getattr(m, 'post', False)),
                     })
+        if _G.get('prop') == 'C14' and not res['mismatches']:
+            # behaviour, not only construction: next()/backtrack()/actions read the `input` field, the one field that
+            # differs by design ("" for iterator lexers). One call from every boundary state is explored for the
+            # definition constructed from &str and from an iterator; each is compared with the reference, so a
+            # disagreement that only one of the two shows is a dependence on how the characters were supplied
+            import copy
+            found = {}
+            for flag in (False, True):
+                d2 = copy.copy(d)
+                d2.str_input = flag
+                hh = ST.StepHarness(prog, i, d2, min(N, d.nmax) if d.nmax else N, fields=_G['fields'])
+                hh.width_table = h.width_table
+                hh.width_keys = h.width_keys
+                hh.ex.deadline = c0 + budget
+                for rho in range(len(d.rulesets)):
+                    for m in hh.run_step(rho):
+                        rk = (rho, tuple(sorted(m.aspects)), ''.join(ch for ch in m.what if not ch.isdigit()))
+                        found.setdefault(rk, {})[flag] = (m, hh)
+                h.stats['paths'] += hh.stats['paths']
+                h.ex.queries += hh.ex.queries
+                h.ex.solver_time += hh.ex.solver_time
+                for k, v in hh.stats['covers'].items():
+                    h.stats['covers'][k] = h.stats['covers'].get(k, 0) + v
+            for rk, byflag in found.items():
+                if len(byflag) == 2:
+                    continue        # both kinds of lexer disagree with the reference in the same way: not a C14 matter
+                flag = list(byflag)[0]
+                m, hh = byflag[flag]
+                if nseen.get(rk[1:], 0) >= 3:
+                    continue
+                nseen[rk[1:]] = nseen.get(rk[1:], 0) + 1
+                res['mismatches'].append({
+                    'aspects': ['ctor'], 'what': 'only the lexer constructed from %s: %s' % ('&str' if flag else 'an iterator', m.what), 'rho': rk[0], 'prepeek': False, 'done': False,
+                    'concrete': ST.concretize(hh, m.model, m.detail.get('decisions', ())) if m.model is not None else None,
+                    'expected': m.detail.get('expected'), 'ctor': 'new_with_state' if flag else 'new_from_iter_with_state', 'post': bool(getattr(m, 'post', False)),
+                })
         # definitions that are cheap at N get a deeper bound as well (first variant only)
         deepN = None
-        if _G.get('prop') not in ('C14', 'C15') and not d.nmax and time.time() - t0 < 6 and not res['mismatches']:
+        if _G.get('prop') not in ('C14', 'C15') and not d.nmax and time.process_time() - c0 < 6 and not res['mismatches']:
             deepN = N + 2
             h2 = ST.StepHarness(prog, i, d, deepN, fields=_G['fields'])
             h2.width_table = h.width_table
             h2.width_keys = h.width_keys
-            h2.ex.deadline = time.time() + min(40, budget)
+            h2.ex.deadline = time.process_time() + min(40, budget)
             try:
                 for rho in range(len(d.rulesets)):
                     for m in h2.run_step(rho):
@@ -213,11 +250,14 @@ def replay_variant(prop, crate, i, d, mm, widths_fn):
         # the solver's own witness (e.g. a specific first character) is tried first
         w0 = tuple(mm['concrete']['input'])
         words = [w0] + [w0 + (r,) for r in reps[:6]] + words
-    base = [C.drv_line(i, 0, False, 0, len(w) + 2, 0, 255, script if prop == 'C15' else [], list(w)) for w in words]
+    rho0 = mm.get('rho', 0) if prop == 'C14' else 0
+    if prop == 'C14':
+        script = (list(mm['concrete'].get('script') or []) if mm.get('concrete') else []) + [0] * 8
+    base = [C.drv_line(i, rho0, False, 0, len(w) + 2, 0, 255, script, list(w)) for w in words]
     base_out = crate.native_run(base)
     variants = [(c, 255) for c in (1, 2, 3)] if prop == 'C14' else [(0, k) for k in (0, 1, 2)]
     for ctor, clone_at in variants:
-        lines = [C.drv_line(i, 0, False, 0, len(w) + 2, ctor, clone_at, script if prop == 'C15' else [], list(w)) for w in words]
+        lines = [C.drv_line(i, rho0, False, 0, len(w) + 2, ctor, clone_at, script, list(w)) for w in words]
         outs = crate.native_run(lines)
         for w, a, b in zip(words, base_out, outs):
             if clone_at != 255:
@@ -225,7 +265,7 @@ def replay_variant(prop, crate, i, d, mm, widths_fn):
                 # original's stream (same calls)
                 pass
             if a != b:
-                return True, {'input': list(w), 'input_text': ''.join(chr(x) for x in w), 'start_rule_set': 'Init', 'constructor': ctor, 'clone_before_call': clone_at,
+                return True, {'input': list(w), 'input_text': ''.join(chr(x) for x in w), 'start_rule_set': d.rs_names()[rho0], 'constructor': ctor, 'clone_before_call': clone_at,
                               'native_reference_variant': a.split('|'), 'native_this_variant': b.split('|')}
     return False, 'all native variants agree on %d inputs' % len(words)
 
